@@ -11,6 +11,14 @@ Ltac Zify.zify_post_hook ::= Z.to_euclidean_division_equations.
 Ltac i64 := unfold int64, min64, max64 in *; lia.
 Ltac step64 := rewrite chk64_in by i64; cbn [bind].
 
+Lemma vf_iff f :
+  valid_fields f = true <->
+  valid_date (fy f) (fm f) (fd f) = true /\
+  0 <= fhh f <= 23 /\ 0 <= fmm f <= 59 /\ 0 <= fss f <= 59.
+Proof.
+  unfold valid_fields. destruct (valid_date (fy f) (fm f) (fd f)); lia.
+Qed.
+
 (* ------------------------------------------------------------------ *)
 (* scale_add                                                           *)
 
@@ -20,7 +28,7 @@ Lemma scale_add64_ok v f a :
 Proof.
   intros Hf Ha Ht. unfold scale_add64, add64, sub64, mul64.
   destruct (Z.ltb_spec v 0);
-    destruct Hf as [->|[->|->]]; repeat step64; f_equal; lia.
+    destruct Hf as [-> | [-> | ->]]; repeat step64; f_equal; lia.
 Qed.
 
 (* ------------------------------------------------------------------ *)
@@ -133,7 +141,7 @@ Lemma diff_day64_ok f1 f2 :
   int64 (fy f1) -> int64 (fy f2) -> int64 (ddays f1 f2) ->
   diff_day64 f1 f2 = OK (ddays f1 f2).
 Proof.
-  intros V1 V2 I1 I2 IT. apply valid_fields_iff in V1, V2.
+  intros V1 V2 I1 I2 IT. apply vf_iff in V1, V2.
   unfold diff_day64. apply day_difference64_ok; tauto.
 Qed.
 
@@ -144,8 +152,8 @@ Lemma diff_hour64_ok f1 f2 :
   diff_hour64 f1 f2 = OK (ddays f1 f2 * 24 + (fhh f1 - fhh f2)).
 Proof.
   intros V1 V2 I1 I2 IT.
-  pose proof (proj1 (valid_fields_iff _) V1) as W1.
-  pose proof (proj1 (valid_fields_iff _) V2) as W2.
+  pose proof (proj1 (vf_iff _) V1) as W1.
+  pose proof (proj1 (vf_iff _) V2) as W2.
   unfold diff_hour64. rewrite diff_day64_ok by (auto; i64). cbn [bind].
   apply scale_add64_ok; [auto | lia | exact IT].
 Qed.
@@ -157,8 +165,8 @@ Lemma diff_minute64_ok f1 f2 :
   diff_minute64 f1 f2 = OK ((ddays f1 f2 * 24 + (fhh f1 - fhh f2)) * 60 + (fmm f1 - fmm f2)).
 Proof.
   intros V1 V2 I1 I2 IT.
-  pose proof (proj1 (valid_fields_iff _) V1) as W1.
-  pose proof (proj1 (valid_fields_iff _) V2) as W2.
+  pose proof (proj1 (vf_iff _) V1) as W1.
+  pose proof (proj1 (vf_iff _) V2) as W2.
   unfold diff_minute64. rewrite diff_hour64_ok by (auto; i64). cbn [bind].
   apply scale_add64_ok; [auto | lia | exact IT].
 Qed.
@@ -171,8 +179,8 @@ Lemma diff_second64_ok f1 f2 :
   OK (((ddays f1 f2 * 24 + (fhh f1 - fhh f2)) * 60 + (fmm f1 - fmm f2)) * 60 + (fss f1 - fss f2)).
 Proof.
   intros V1 V2 I1 I2 IT.
-  pose proof (proj1 (valid_fields_iff _) V1) as W1.
-  pose proof (proj1 (valid_fields_iff _) V2) as W2.
+  pose proof (proj1 (vf_iff _) V1) as W1.
+  pose proof (proj1 (vf_iff _) V2) as W2.
   unfold diff_second64. rewrite diff_minute64_ok by (auto; i64). cbn [bind].
   apply scale_add64_ok; [auto | lia | exact IT].
 Qed.
@@ -256,7 +264,7 @@ Proof.
   - (* day *)
     apply diff_day64_ok; assumption.
   - (* month *)
-    apply valid_fields_iff in V1, V2.
+    apply vf_iff in V1, V2.
     destruct V1 as [V1 _], V2 as [V2 _].
     apply valid_date_bounds in V1, V2.
     unfold diff_month64, diff_year64, sub64.
@@ -296,7 +304,7 @@ Proof.
     rewrite !ord3_eq by assumption. lia.
   - rewrite <- Z.ltb_lt, <- L. unfold lt64, fields_ltb.
     apply aligned4 in Aa, Ab.
-    apply valid_fields_iff in Va, Vb.
+    apply vf_iff in Va, Vb.
     destruct Va as [Va _], Vb as [Vb _].
     apply valid_date_bounds in Va, Vb. lia.
   - rewrite <- Z.ltb_lt, <- L. unfold lt64, fields_ltb.
@@ -312,7 +320,7 @@ Lemma cos_fields s :
   fss (civil_of_seconds s) = (s mod 86400) mod 60.
 Proof.
   unfold civil_of_seconds. destruct (civil_of_days (s / 86400)) as [[y m] d].
-  cbn [fhh fmm fss]. auto.
+  simpl. auto.
 Qed.
 
 Lemma fields_eta f : mkF (fy f) (fm f) (fd f) (fhh f) (fmm f) (fss f) = f.
@@ -373,14 +381,15 @@ Proof.
     unfold valid_fields; cbn [fy fm fd fhh fmm fss].
     rewrite valid_month_first by lia. reflexivity.
   - intros f V A. apply aligned4 in A. destruct A as (A3 & A0 & A1 & A2).
-    apply valid_fields_iff in V. destruct V as [V _].
+    apply vf_iff in V. destruct V as [V _].
     apply valid_date_bounds in V.
-    rewrite <- (fields_eta f) at 3. rewrite A3, A0, A1, A2.
-    f_equal; lia.
+    transitivity (mkF (fy f) (fm f) (fd f) (fhh f) (fmm f) (fss f)); [|apply fields_eta].
+    rewrite A3, A0, A1, A2. f_equal; lia.
   - (* year *)
     intros n. cbn [fy fm fd fhh fmm fss]. split; [reflexivity|]. split; [|reflexivity].
     unfold valid_fields; cbn [fy fm fd fhh fmm fss].
     rewrite valid_month_first by lia. reflexivity.
   - intros f V A. apply aligned5 in A. destruct A as (A4 & A3 & A0 & A1 & A2).
-    rewrite <- (fields_eta f) at 2. rewrite A4, A3, A0, A1, A2. reflexivity.
+    transitivity (mkF (fy f) (fm f) (fd f) (fhh f) (fmm f) (fss f)); [|apply fields_eta].
+    rewrite A4, A3, A0, A1, A2. reflexivity.
 Qed.
